@@ -323,10 +323,13 @@ def xrandbetween(bottom, top):
     return bottom + min(int(np.random.rand() * n), n - 1)
 
 
-FUNCTIONS['RANDBETWEEN'] = wrap_ufunc(
-    xrandbetween, input_parser=lambda *a: a,
-    check_error=lambda *a: get_error(*a[::-1])
-)
+FUNCTIONS['RANDBETWEEN'] = {
+    'extra_inputs': collections.OrderedDict([(COMPILING, False)]),
+    'function': wrap_impure_func(wrap_ufunc(
+        xrandbetween, input_parser=lambda *a: a,
+        check_error=lambda *a: get_error(*a[::-1])
+    ))
+}
 
 
 def _xroman(form):
